@@ -39,6 +39,10 @@ def project(rng):
     b.tag("r1", "REAL")
     b.tag("arr", "DINT", (3000,))
     b.tag("bits", "DWORD", (2,))
+    # a structure with many members: its template does not fit one reply on a 500-byte connection, and the target may answer template
+    # reads a few bytes at a time anyway - the upload (open() and the "upload" request kind) then needs several template-read messages
+    u = b.udt("Recipe_q", [(f"member_with_a_long_name_{i:03d}", rng.choice(["DINT", "REAL", "INT"]), 0) for i in range(48)])
+    b.tag("recipe", u)
     return b.done()
 
 
@@ -186,10 +190,17 @@ def run(ctx):
                     res.dont_care("no-_sequence-generator: phase workload skipped")
                     sc.close()
                     continue
-                cur = next(seq)
-                steps = (65535 + ph - cur) % 65535
-                for _ in range(steps):
-                    next(seq)
+                try:
+                    cur = next(seq)
+                    steps = (65535 + ph - cur) % 65535
+                    for _ in range(steps):
+                        next(seq)
+                except StopIteration:
+                    # the counter of a connection has no end: a generator that runs out leaves the driver without counts
+                    res.ev()
+                    res.violation("sequence-counter-exhausted", f"the driver's sequence counter stopped yielding values on the way to the wrap (phase {ph:+d}, request kind {kind})", None)
+                    sc.close()
+                    continue
                 for c_ in sc.target.connections.values():
                     c_.last_seq = c_.last_reply = None   # the jump was made by the harness, not by traffic
                 before = sc.b.log.counts.get("connected-messages", 0)
@@ -280,6 +291,41 @@ def run(ctx):
                 if not b.dead:
                     b.call("close", drv.close)
             drain(res, b, "slc")
+            b.close()
+        except ScenarioDead:
+            pass
+    # ---- (f) two drivers in one process, each with its own connection: what one of them sends between two messages of the other - any
+    # number of messages, also whole laps of a 16-bit counter - does not make the other repeat a count
+    if ctx.shard % 8 == 5:
+        try:
+            import pycomm3 as p
+            from vlib.bench import Bench
+            from vlib import reftarget as rt
+            b = Bench(rng)
+            tA, devA = b.simple_target()
+            devA.responder = lambda rq: (0, (), b"ok")
+            devB = rt.Device(rt.Identity(serial=0xB0B0B0B0), rng, b.log)
+            devB.responder = lambda rq: (0, (), b"ok")
+            b.set_target(rt.RefTarget(rng, front=devB, routes={((1, 0),): devB}, policy=rt.Policy(), log=b.log), host="192.168.1.238")
+            dA, dB = p.CIPDriver(b.host + "/bp/0"), p.CIPDriver("192.168.1.238/bp/0")
+            if b.call("open", dA.open)[0] == "ok" and b.call("open", dB.open)[0] == "ok":
+                def gm(d_):
+                    return b.call("gm", d_.generic_message, service=0x0E, class_code=0x01, instance=1, attribute=7, connected=True)
+                for n in ([65534, 65535, 65533] if quick else [65534, 65535, 65533, 65536, 131069, 131070, 7, 1]):
+                    gm(dA)
+                    for _ in range(n):
+                        gm(dB)
+                    gm(dA)
+                    gm(dA)
+                    res.ev()
+                    res.seen("two-drivers", n)
+                    if b.dead:
+                        break
+                res.count("connected-messages", b.log.counts.get("connected-messages", 0))
+                if not b.dead:
+                    b.call("close", dA.close)
+                    b.call("close", dB.close)
+            drain(res, b, "two-drivers")
             b.close()
         except ScenarioDead:
             pass
